@@ -180,6 +180,8 @@ impl varlink::Interface for ScriptIface {
 /// A hand-written org.varlink.resolver with a fixed interface -> address table.
 pub struct ResolverIface {
     pub table: Vec<(String, String)>,
+    /// spell out "continues": false in the Resolve replies (legal; other implementations do)
+    pub explicit_final: bool,
 }
 
 impl varlink::Interface for ResolverIface {
@@ -209,7 +211,11 @@ impl varlink::Interface for ResolverIface {
                 match want {
                     None => call.reply_invalid_parameter("interface".into()),
                     Some(w) => match self.table.iter().find(|(i, _)| *i == w) {
-                        Some((_, a)) => call.reply_struct(Reply::parameters(Some(json!({ "address": a })))),
+                        Some((_, a)) => call.reply_struct(Reply {
+                            continues: if self.explicit_final { Some(false) } else { None },
+                            error: None,
+                            parameters: Some(json!({ "address": a })),
+                        }),
                         None => call.reply_struct(Reply::error(
                             "org.varlink.resolver.InterfaceNotFound",
                             Some(json!({ "interface": w })),
